@@ -14,7 +14,14 @@
 // What the sentence leaves open, and what is done here: the trailing semicolon is *optional* only for queries — the
 // grammar makes it the mandatory terminator of every CREATE TABLE (several definitions may follow each other), so the
 // semicolon variant is applied to queries only.  The case of modifier words (TRIM, CONVERT, MICROSECONDS) is not
-// listed in the sentence and is not varied.  `split`/`match` are varied as their own kind (`case-mode`, finding D46).
+// listed in the sentence: the ORACLE does not vary it; a variant with these words re-cased (`case-option`) goes to the
+// model only (correspondence: `Props/C20Create.lean` proves the model reads them lower-cased; a change of the code shows
+// there).  `split`/`match` are varied as their own kind (`case-mode`, finding D46).
+//
+// (3) CREATE TABLE texts reach the model's parser and lowering (case kind `stmt`: tokens -> tree -> statement,
+//     `Pipeline.parseToks`): every CREATE TABLE base and its `case-type`, `case-mode`, `case-option` and mixed variants —
+//     the texts `Props/C20Create.lean` `create_table_name_case_statement` speaks about (type names incl. array types
+//     `int[]`, `TEXT[][]`, pattern modes, several statements in one definitions text).
 use std::collections::BTreeSet;
 
 use sqlgrep::parsing::verif_hooks::{completion_words, keywords_list};
@@ -24,6 +31,7 @@ use crate::lexcases;
 use crate::queries;
 use crate::run::{Params, Run};
 use crate::runq;
+use crate::stmtcases;
 use crate::util::{catch, Caught, Rng};
 
 #[derive(Clone, Debug, PartialEq)]
@@ -97,6 +105,16 @@ const AGGREGATES: &[&str] = &["count", "min", "max", "sum", "avg", "stddev", "va
 const TYPES: &[&str] = &["int", "real", "text", "boolean", "timestamp", "interval"];
 const LITERALS: &[&str] = &["null", "true", "false"];
 const MODES: &[&str] = &["split", "match"];
+const OPTIONS: &[&str] = &["trim", "convert", "microseconds"];
+
+/// definitions texts with what the generator of `extract.rs` never writes: a column called like a type, the same type
+/// name at several occurrences, array types of both depths next to options, an inline pattern, a JSON path with an
+/// index, two and three statements in one text
+const FIXED_DEFS: &[&str] = &[
+    "CREATE TABLE t(line = SPLIT ';', line[1] => a int, line[2] => b Text NOT NULL, line[3] => c REAL[] default NULL);",
+    "CREATE TABLE t(p = MATCH 'a(b)', p[1] => int INT, p[1] => x INT[] convert, p[1] => y TEXT[][], 'z' => z Text TRIM); CREATE TABLE u({.f[0]} => ts TIMESTAMP microseconds);",
+    "CREATE TABLE a(p = 'x(y)', p[1] => real REAL, p[1] => text text[] DEFAULT NULL);\nCREATE TABLE b({.k} => boolean BOOLEAN NOT NULL, {.i[1].j} => interval INTERVAL[][]);\nCREATE TABLE c(q = split ',', q[1], q[2] => v int[]);",
+];
 
 fn vocab() -> Vocab {
     let keywords: BTreeSet<String> = keywords_list(false).into_iter().collect();
@@ -159,7 +177,7 @@ fn apply(rng: &mut Rng, v: &Vocab, kind: &str, its: &mut Vec<(String, Lx)>, tail
     let mut changed = false;
     let n = its.len();
     match kind {
-        "case-keyword" | "case-literal" | "case-function" | "case-aggregate" | "case-type" | "case-mode" => {
+        "case-keyword" | "case-literal" | "case-function" | "case-aggregate" | "case-type" | "case-mode" | "case-option" => {
             for i in 0..n {
                 if its[i].1.k != K::Word { continue; }
                 let lw = its[i].1.text.to_lowercase();
@@ -173,7 +191,12 @@ fn apply(rng: &mut Rng, v: &Vocab, kind: &str, its: &mut Vec<(String, Lx)>, tail
                     "case-type" => TYPES.contains(&lw.as_str()) && !next_is_paren && !prev_is_dot
                         // a type name stands after `::` (cast) or, in a CREATE TABLE text only, after the column name — in a
                         // SELECT a word after another word can be an alias or column that merely looks like a type (`x AS text`)
-                        && i > 0 && (its[i - 1].1.text == "::" || (its[i - 1].1.k == K::Word && its.first().map(|f| f.1.text.eq_ignore_ascii_case("create")).unwrap_or(false))),
+                        // (the word in front is the column's NAME, so no keyword: `TABLE int (` names a table, `DEFAULT text` no type)
+                        && i > 0 && (its[i - 1].1.text == "::" || (its[i - 1].1.k == K::Word && !v.keywords.contains(&its[i - 1].1.text.to_lowercase())
+                            && i > 1 && its[i - 2].1.text == "=>" && its.first().map(|f| f.1.text.eq_ignore_ascii_case("create")).unwrap_or(false))),
+                    // the one option word of a column definition: behind the type (`name TYPE opt` / `name TYPE[] opt`), in front of `,` / `)`
+                    "case-option" => OPTIONS.contains(&lw.as_str()) && its.first().map(|f| f.1.text.eq_ignore_ascii_case("create")).unwrap_or(false)
+                        && i > 0 && (its[i - 1].1.text == "]" || its[i - 1].1.k == K::Word) && i + 1 < n && (its[i + 1].1.text == "," || its[i + 1].1.text == ")"),
                     _ => MODES.contains(&lw.as_str()) && i > 0 && its[i - 1].1.text == "=" && i + 1 < n && its[i + 1].1.k == K::Str,
                 };
                 if applies {
@@ -253,6 +276,15 @@ fn variant(rng: &mut Rng, v: &Vocab, kind: &str, items: &[(String, Lx)], is_quer
     if apply(rng, v, kind, &mut its, &mut tail, is_query) { Some(render(&its, &tail)) } else { None }
 }
 
+/// correspondence case `stmt`: the text's token vector through the real parser + lowering and through `Pipeline.parseToks`
+fn emit_stmt(run: &mut Run, text: &str, gen: &str) {
+    if let Caught::Done(Ok(tokens)) = stmtcases::tokenize_caught(text) {
+        let (answer, skind) = stmtcases::run_parse(text);
+        let desc: String = text.chars().take(300).collect();
+        run.case_with_desc(format!("stmt {} {}", stmtcases::tokens_sexp(&tokens), stmtcases::regex_oracle(&tokens)), answer, format!("stmt:{}:{}", gen, skind), desc);
+    }
+}
+
 fn parse_debug(text: &str) -> Result<String, String> {
     match catch(|| sqlgrep::parsing::parse(text)) {
         Caught::Done(Ok(st)) => Ok(format!("{:?}", st)),
@@ -318,7 +350,19 @@ pub fn run(p: &Params) -> Run {
         // a base statement
         let (text, is_query, defs) = if si % 3 == 2 {
             let d = extract::gen_def(&mut rng, (si % 11) as u64);
-            (d.render(&mut rng), false, String::new())
+            let mut text = d.render(&mut rng);
+            if si % 4 == 1 {
+                // a definitions text of several statements
+                for k in 0..1 + rng.below(2) {
+                    let d2 = extract::gen_def(&mut rng, ((si + k) % 11) as u64);
+                    text.push_str(pk(&mut rng, &[" ", "\n", ""]));
+                    text.push_str(&d2.render(&mut rng).replacen("CREATE TABLE t ", &format!("CREATE TABLE t{} ", k), 1));
+                }
+                run.count("base:create:multi");
+            }
+            (text, false, String::new())
+        } else if si < 3 * FIXED_DEFS.len() && si % 3 == 0 {
+            (FIXED_DEFS[si / 3].to_owned(), false, String::new())
         } else if si % 41 == 0 {
             ((*rng.pick(&[queries::MAIN_DEF, queries::MAIN_DEF_BOOL, queries::JOIN_DEF])).to_owned(), false, String::new())
         } else {
@@ -338,11 +382,20 @@ pub fn run(p: &Params) -> Run {
         let output = if is_query && si % INPUT_KINDS != 1 { Some(runq::run_batch(&defs, &text, &input).show()) } else { None };
         let b = Base { text: text.clone(), items, is_query, defs, debug, output };
         if si % 5 == 0 { lexcases::emit_tok(&mut run, &text, "c20-base"); }
+        if !is_query { emit_stmt(&mut run, &text, "c20-create-base"); }
         for kind in KINDS {
             if let Some(vt) = variant(&mut rng, &v, kind, &b.items, is_query) {
                 let ok = compare(&mut run, &b, kind, &vt, &input);
                 run.tags.insert(format!("rel:{}:{}:{}", kind, if is_query { "query" } else { "create" }, if ok { "same" } else { "differs" }));
                 if si % 7 == 0 || !ok { lexcases::emit_tok(&mut run, &vt, "c20-variant"); }
+                if !is_query && (*kind == "case-type" || *kind == "case-mode") { emit_stmt(&mut run, &vt, &format!("c20-create-{}", kind)); }
+            }
+        }
+        if !is_query {
+            // the option words re-cased: to the model only (the sentence does not list them: no oracle verdict)
+            if let Some(vt) = variant(&mut rng, &v, "case-option", &b.items, false) {
+                run.count("variant:case-option(model only)");
+                emit_stmt(&mut run, &vt, "c20-create-case-option");
             }
         }
         // several kinds at once, each applied to the result of the previous one
@@ -361,13 +414,15 @@ pub fn run(p: &Params) -> Run {
             let ok = compare(&mut run, &b, &mixed, &vt, &input);
             run.tags.insert(format!("rel:mixed:{}:{}", if is_query { "query" } else { "create" }, if ok { "same" } else { "differs" }));
             if si % 7 == 3 || !ok { lexcases::emit_tok(&mut run, &vt, "c20-mixed"); }
+            if !is_query { emit_stmt(&mut run, &vt, "c20-create-mixed"); }
         }
     }
     let _ = std::fs::remove_file(&join_path);
     // the same relation through the program itself (-c / --command-file): `;` and `--` inside literals and comments
     crate::cli::layout_stream(&mut run, &mut rng, p.n(40, 600));
     run.notes.push(format!("{} statements skipped because the harness scanner does not cover them", skipped_scan));
-    run.notes.push("relation: parse(base) == parse(variant) through {:?}, and equal printed output for queries; the trailing semicolon is varied for queries only (mandatory terminator of CREATE TABLE); modifier words are not case-varied".to_owned());
+    run.notes.push("relation: parse(base) == parse(variant) through {:?}, and equal printed output for queries; the trailing semicolon is varied for queries only (mandatory terminator of CREATE TABLE); modifier words (TRIM / CONVERT / MICROSECONDS) are case-varied for the model only (`stmt` correspondence, no oracle verdict)".to_owned());
+    run.notes.push("CREATE TABLE bases (generated, several statements in one text, fixed texts with array types and columns called like types) and their case-type / case-mode / case-option / mixed variants go through the model's parser and lowering (`stmt` cases): the texts of Props/C20Create.lean".to_owned());
     run
 }
 
